@@ -36,7 +36,10 @@ def run(pid, tier, seed, procs=None):
     if os.environ.get('VERIF_N'):
         N = int(os.environ['VERIF_N'])           # experiments only
     step_specs = []
+    only = os.environ.get('VERIF_ONLY')        # experiments only: "kind:op,kind:op"
     for kind, op in plan.steps_for(pid):
+        if only and f'{kind}:{op}' not in only.split(','):
+            continue
         n_op = N
         if kind == 'key' and N > cfg['N_key']:
             n_op = cfg['N_key']
